@@ -403,7 +403,8 @@ func runC20(o *Out) {
 				o.count("get_cases", 1)
 				if gerr != nil && strings.HasPrefix(gerr.Error(), "PANIC") {
 					o.violation("C20", "Path.Get panicked", map[string]string{"path": ps, "doc": doc, "panic": gerr.Error()})
-				} else if gerr == nil && len(sel) == 1 && got == want {
+				} else if gerr == nil && len(sel) == 1 && got == want && !strings.Contains(ps, "..") {
+					// (a path with recursive descent yields the list of its matches, also when there is one)
 					var wantV interface{}
 					stdjson.Unmarshal([]byte(parts[0]), &wantV)
 					if strings.Contains(doc, `"a":1,"a":2`) {
